@@ -345,7 +345,7 @@ def suite_ddd(ctx):
     s = Suite('ddd')
     rng = ctx.rng
     lines, impl = [], []
-    for _ in range(ctx.n(600, 12000)):
+    def random_scenario():
         n = rng.randrange(1, 5)
         caf, cmf = rng.choice(FORMATS[:9]), rng.choice(FORMATS[:9])
         same = rng.random() < 0.7
@@ -370,6 +370,21 @@ def suite_ddd(ctx):
             else:
                 entries.append((a, z, rng.choice(FORMATS[:9]), rng.choice(FORMATS[:9])))
         did = rng.choice([0xF200, 0xF3FF, 0, 0xFFFF, 0x10000, -1])
+        return did, caf, cmf, entries, rng.random() < 0.3, len(entries) == 1 and rng.random() < 0.5
+
+    # fixed scenarios first (whatever the seed): entries without / with explicit widths x configured widths that differ from the smallest ones x the definition read
+    # before it is handed over x a single range handed over bare
+    corpus = []
+    for caf, cmf in ((None, None), (32, 16), (8, 8), (64, 64), (None, 24), (40, None)):
+        for ents in ([(0x1234, 4, None, None)], [(0x1234, 4, None, None), (0x20, 0x10, None, None)], [(0x12, 4, 16, 8)], [(0x12, 4, 16, 8), (0x3456, 0x44, 16, 8)],
+                     [(0x123456, 0x100, None, None), (0x12, 1, None, None), (0x1234, 0x20, None, None)], [(0x12, 4, 16, None), (0x12, 4, None, 8)],
+                     [(0x12, 4, 24, 8), (0x3456, 0x44, 16, 8)], [(0, 0, None, None)], [(0xFFFFFFFFFF, 0xFFFF, None, None)]):
+            for read_first in (False, True):
+                for bare in ((False, True) if len(ents) == 1 else (False,)):
+                    corpus.append((0xF200, caf, cmf, list(ents), read_first, bare))
+    todo = ctx.n(600, 12000)
+    for k in range(len(corpus) + todo):
+        did, caf, cmf, entries, read_first, bare_form = corpus[k] if k < len(corpus) else random_scenario()
         line = 'ml.ddd did=%d caf=%s cmf=%s entries=%s' % (did, oi(caf), oi(cmf), ';'.join('%d:%d:%s:%s' % (a, z, oi(x), oi(y)) for a, z, x, y in entries))
         client, conn = cl.make_client(cl.Cfg(rt=4, p2=2, p2s=2), extra={'server_address_format': caf, 'server_memorysize_format': cmf})
         sends = []
@@ -381,14 +396,14 @@ def suite_ddd(ctx):
         except Exception:  # noqa
             ok = False
         if ok:
-            if rng.random() < 0.3:
+            if read_first:
                 # the application looks at the definition before handing it over (reading must not change what is sent later)
                 try:
                     ddd.get_alfid()
                 except Exception:  # noqa
                     pass
                 s.count('definition read before the call')
-            if len(entries) == 1 and rng.random() < 0.5:
+            if bare_form:
                 # a single range may be handed over as the MemoryLocation itself (documented): same precedence of explicit / configured / smallest widths
                 a_, z_, x_, y_ = entries[0]
                 bare = MemoryLocation(a_, z_, x_, y_)
